@@ -279,6 +279,19 @@ Theorem C10_layered_root_is_function_of_map :
       layered_history hempty hleaf hbranch heqb h (S lv') ([], hempty) b2 = Some (s2, r).
 Proof. exact @layered_root_is_function_of_map. Qed.
 
+(* THE FLAT LOOPS.  utils.go calculateSubTree (level by level from the deepest row, temp nodes, temp-holder queue) and
+   hasher.go treeHasher, transcribed on the (structure, nodes) lists in SMT/LayeredFlat.v, compute what the layered model
+   uses: the bottom-up collapsing [norm] and the tree hash [shash] of the tree reading — for every sub-tree, no hypothesis. *)
+From LE Require Import SMT.LayeredFlat SMT.LayeredFlatProofs.
+Theorem C10_layered_calculateSubTree_is_norm :
+  forall (V Hsh : Type) (hempty : Hsh) (hleaf : key -> V -> Hsh) (raw : @ST V Hsh),
+    calc_subtree (flatten 0 raw) = Some (flatten 0 (norm raw)).
+Proof. exact @calc_subtree_norm. Qed.
+Theorem C10_layered_treeHasher_is_shash :
+  forall (V Hsh : Type) (hempty : Hsh) (hleaf : key -> V -> Hsh) (hbranch : Hsh -> Hsh -> Hsh) (st : @ST V Hsh),
+    tree_hasher hempty hleaf hbranch (flatten 0 st) = Some (shash hempty hleaf hbranch st).
+Proof. exact @tree_hasher_shash. Qed.
+
 (* NON-VACUITY.  The free hash xh (SMT/LayeredEx.v) satisfies every hash hypothesis above (so the theorems apply to it), and on 4-bit keys
    a history with inserts, an overwrite, and deletions that empty a lower sub-tree runs on the layered model with
    sub-trees of height 2 (two layers) and of height 1 (four layers): same root as the reference trie, the trie read back
